@@ -9,6 +9,7 @@ open Srtla Srtla.Gen Srtla.Conn Srtla.Select Srtla.Rtt Srtla.Link Scalar
 set_option linter.unusedSectionVars false
 
 variable {F : Type} [Scalar F]
+variable {fa : List (Nat × Nat)}
 
 theorem LinkFx.congr_left {cause : Prop} {app : List QItem} {l0 l l' : FLink F} {b : List Bytes}
     (h : LinkFx cause app l0 l' b) (hq : l0.queue = l.queue) (hc : l0.core.connId = l.core.connId) :
@@ -39,9 +40,9 @@ def RProbe (fn0 : List Nat) (x : QItem) (sel : Nat) (i : Nat) (l l' : FLink F) (
 
 theorem stallProbesGo_par (pkt : Bytes) (seq : Option Nat) (now sel : Nat) (fn0 : List Nat) :
     ∀ (ls : List (FLink F)) (i : Nat) (fn : List Nat), (∀ y ∈ fn, y ∈ fn0) →
-      Par (RProbe fn0 (pkt, seq, now) sel) i ls (stallProbesGo pkt seq now sel ls i fn).1
-        (stallProbesGo pkt seq now sel ls i fn).2.1 ∧
-      ∀ y ∈ (stallProbesGo pkt seq now sel ls i fn).2.2, y ∈ fn0 := by
+      Par (RProbe fn0 (pkt, seq, now) sel) i ls (stallProbesGo fa pkt seq now sel ls i fn).1
+        (stallProbesGo fa pkt seq now sel ls i fn).2.1 ∧
+      ∀ y ∈ (stallProbesGo fa pkt seq now sel ls i fn).2.2, y ∈ fn0 := by
   intro ls
   induction ls with
   | nil => intro i fn hfn; exact ⟨.nil _, hfn⟩
@@ -81,7 +82,7 @@ theorem stallProbesGo_par (pkt : Bytes) (seq : Option Nat) (now sel : Nat) (fn0 
       · -- the counter fires: a copy is queued
         have hd : l.stallProbeDue.2 = true := by rw [d1]; simpa using hdue
         simp only [hd, Bool.not_true, Bool.false_eq_true, if_false]
-        have hq := queueThenFlush_fx l.stallProbeDue.1 (pkt, seq, now) now fn fn0 hfn
+        have hq := queueThenFlush_fx (fa := fa) l.stallProbeDue.1 (pkt, seq, now) now fn fn0 hfn
         dsimp only at hq
         have happ : probeApp (pkt, seq, now) sel i l = [(pkt, seq, now)] := by
           unfold probeApp; rw [if_pos ⟨hc, hdue⟩]
@@ -107,9 +108,9 @@ theorem stallProbesGo_par (pkt : Bytes) (seq : Option Nat) (now sel : Nat) (fn0 
           refine ⟨?_, ih2⟩
           have : Par (RProbe fn0 (pkt, seq, now) sel) i (l :: rest)
               ((l.stallProbeDue.1.queueDataPacket pkt seq now).1 ::
-                (stallProbesGo pkt seq now sel rest (i + 1) fn).1)
+                (stallProbesGo fa pkt seq now sel rest (i + 1) fn).1)
               (([] : List Bytes).map (fun x => (l.core.connId, x)) ++
-                (stallProbesGo pkt seq now sel rest (i + 1) fn).2.1) := by
+                (stallProbesGo fa pkt seq now sel rest (i + 1) fn).2.1) := by
             refine Par.cons ⟨fun h => absurd hc h, (fun h => by rw [happ] at h; cases h), ?_, ?_⟩ ih1
             · rw [happ]
               exact (hk1.mono (fun f => ⟨by rw [← d4]; exact f.1, f.2⟩)).congr_left d3 (by rw [d4])
@@ -138,8 +139,8 @@ def RFlush (fn0 : List Nat) (_i : Nat) (l l' : FLink F) (b : List Bytes) : Prop 
 
 theorem flushGo_par (now : Nat) (fn0 : List Nat) :
     ∀ (ls : List (FLink F)) (i : Nat) (fn : List Nat), (∀ y ∈ fn, y ∈ fn0) →
-      Par (RFlush fn0) i ls (flushGo now ls fn).1 (flushGo now ls fn).2.1 ∧
-      ∀ y ∈ (flushGo now ls fn).2.2, y ∈ fn0 := by
+      Par (RFlush fn0) i ls (flushGo fa now ls fn).1 (flushGo fa now ls fn).2.1 ∧
+      ∀ y ∈ (flushGo fa now ls fn).2.2, y ∈ fn0 := by
   intro ls
   induction ls with
   | nil => intro i fn hfn; exact ⟨.nil _, hfn⟩
@@ -150,19 +151,14 @@ theorem flushGo_par (now : Nat) (fn0 : List Nat) :
     · rw [if_pos hc]
       dsimp only
       obtain ⟨s1, s2, s3, s4, s5, s6, s7⟩ := sendConnectionBatch_spec l now fn
-      have hsub := sendConnectionBatch_fn_subset l now fn
-      obtain ⟨ih1, ih2⟩ := ih (i + 1) (sendConnectionBatch l now fn).2.2.2 (fun y hy => hfn y (hsub y hy))
+      have hsub := sendConnectionBatch_fn_subset (fa := fa) l now fn
+      obtain ⟨ih1, ih2⟩ := ih (i + 1) (sendConnectionBatch fa l now fn).2.2.2 (fun y hy => hfn y (hsub y hy))
       refine ⟨?_, ih2⟩
       rcases s7 with ⟨w1, w2, w3⟩ | ⟨w1, w2, w3, w4, w5⟩
       · rw [w1]
         exact Par.cons ⟨⟨s2, Or.inr (Or.inl ⟨s1, by simp⟩)⟩, s1, s3⟩ ih1
       · rw [w1]
-        have : Par (RFlush fn0) i (l :: rest)
-            ((sendConnectionBatch l now fn).1 :: (flushGo now rest (sendConnectionBatch l now fn).2.2.2).1)
-            (([] : List Bytes).map (fun x => (l.core.connId, x)) ++
-              (flushGo now rest (sendConnectionBatch l now fn).2.2.2).2.1) :=
-          Par.cons ⟨⟨s2, Or.inr (Or.inr ⟨s1, rfl, hfn _ w4⟩)⟩, s1, s3⟩ ih1
-        simpa using this
+        exact Par.cons ⟨⟨s2, Or.inr (Or.inr ⟨s1, ⟨failPrefix fa l.core.connId (fn.count l.core.connId), by simp⟩, hfn _ w4⟩)⟩, s1, s3⟩ ih1
     · rw [if_neg hc]
       dsimp only
       have hq : l.queue = [] := by
@@ -173,8 +169,8 @@ theorem flushGo_par (now : Nat) (fn0 : List Nat) :
         | cons a t => rw [hqq] at this; simp at this
       obtain ⟨ih1, ih2⟩ := ih (i + 1) fn hfn
       refine ⟨?_, ih2⟩
-      have : Par (RFlush fn0) i (l :: rest) (l :: (flushGo now rest fn).1)
-          (([] : List Bytes).map (fun x => (l.core.connId, x)) ++ (flushGo now rest fn).2.1) :=
+      have : Par (RFlush fn0) i (l :: rest) (l :: (flushGo fa now rest fn).1)
+          (([] : List Bytes).map (fun x => (l.core.connId, x)) ++ (flushGo fa now rest fn).2.1) :=
         Par.cons ⟨LinkFx.refl _ l, hq, rfl⟩ ih1
       simpa using this
 
@@ -217,7 +213,7 @@ theorem forwardVia_spec (s : Sys F) (sel : Nat) (pkt : Bytes) (seq : Option Nat)
   unfold forwardVia
   rw [hl]
   dsimp only
-  have hq := queueThenFlush_fx l (pkt, seq, now) now s.failNext s.failNext (fun _ h => h)
+  have hq := queueThenFlush_fx (fa := s.failAfter) l (pkt, seq, now) now s.failNext s.failNext (fun _ h => h)
   dsimp only at hq
   by_cases hflush : (l.queueDataPacket pkt seq now).2 = true
   · rw [if_pos hflush]
